@@ -42,6 +42,11 @@
                 disconnect: every late read finds it (headers complete, no
                 _clients entry), rebuilds the request from the same headers and
                 answers the message AGAIN
+     "cookieecho" the request's cookies are sent back as Set-Cookie in every response: a
+                cookie value with escaped CR LF (the parser decodes header lines with
+                unicode_escape) puts a raw line break and a header of the client's
+                choosing into the response head (accKg / accCg / r400i: not one valid
+                response)
      "crsplit"  a request line whose CR LF is split over two reads is not recognised: the
                 completed well-formed request is answered 400 (the parser of the first
                 rounds; seeded again as C14-5)
@@ -108,6 +113,7 @@ Reactions(cls) ==
     [] cls = "BadLine"   -> {"r400", "accK", "accC", "r505", "r301", "x500", "wait"}
                               \cup (IF "echo505" \in dv THEN {"r505g", "r400g", "r400k"} ELSE {})
     [] cls = "BadHeader" -> {"r400", "accK", "accC", "r301", "x500"}
+                              \cup (IF "cookieecho" \in dv THEN {"accKg", "accCg", "r400i"} ELSE {})
     [] cls = "BadCL"     -> {"x500", "accK", "accC", "waitB"}
     [] cls = "BadChunk"  -> {"waitB", "accK", "accC"}
     [] cls = "BadEscape" -> {"r400", "accK", "accC", "r301", "x500"}
@@ -118,11 +124,14 @@ Reactions(cls) ==
     [] cls = "Rest"      -> {"accK", "accC"} \cup (IF "crsplit" \in dv THEN {"r400"} ELSE {})
     [] OTHER             -> {}
 
-Closing == {"accC", "r400", "r400g", "r400k", "r505", "r505g", "r301", "x500", "pclose"}
+Closing == {"accC", "accCg", "r400i", "r400", "r400g", "r400k", "r505", "r505g", "r301", "x500", "pclose"}
 
 (* the events of a reaction, up to and excluding the transport's reaction to close *)
 Events(r, c, id) ==
   CASE r \in {"accK", "accH"} -> <<L("req", c, 0, id, FALSE, 0, 0), L("resp", c, 200, "ok", FALSE, 0, 0)>>
+    [] r = "accKg" -> <<L("req", c, 0, id, FALSE, 0, 0), L("resp", c, 200, "garbage", FALSE, 0, 0)>>
+    [] r = "accCg" -> <<L("req", c, 0, id, FALSE, 0, 0), L("resp", c, 200, "garbage", FALSE, 0, 0), L("close", c, 0, "", FALSE, 0, 0)>>
+    [] r = "r400i" -> <<L("rej", c, 400, "", FALSE, 0, 0), L("resp", c, 400, "garbage", FALSE, 0, 0), L("close", c, 0, "", FALSE, 0, 0)>>
     [] r = "accOld" -> <<L("req", c, 0, "GoodHead", FALSE, 0, 0), L("resp", c, 200, "ok", FALSE, 0, 0)>>
     [] r = "accC"  -> <<L("req", c, 0, id, FALSE, 0, 0), L("resp", c, 200, "ok", TRUE, 0, 0), L("close", c, 0, "", FALSE, 0, 0)>>
     [] r = "r400"  -> <<L("rej", c, 400, "", FALSE, 0, 0), L("resp", c, 400, "ok", TRUE, 0, 0), L("close", c, 0, "", FALSE, 0, 0)>>
@@ -144,7 +153,7 @@ CliAfter(r) == r = "waitB"
 
 (* with a stale (request, response) pair in _clients every message whose header block
    is complete and parses is judged on the old request: it is dispatched again *)
-Eff(c, r) == IF cs[c].pair /\ r \notin {"wait", "r400", "r400g", "r400k", "pclose"} THEN "accOld" ELSE r
+Eff(c, r) == IF cs[c].pair /\ r \notin {"wait", "r400", "r400g", "r400k", "r400i", "pclose"} THEN "accOld" ELSE r
 PairAfter(c, r) == cs[c].pair \/ (r = "accH" /\ "stalepair" \in dv)
 
 (* disconnect(sock) delivered: HTTP._on_disconnect *)
@@ -235,7 +244,7 @@ TDisc(c) ==
      /\ Emit(<<L("disc", c, 0, "", FALSE, 0, 0)>> \o StepEnd(c, ncs))
   /\ hist' = Append(hist, <<"T", c, "">>) /\ UNCHANGED dv
 
-AllReactions == {"accK", "accC", "accH", "r400", "r400g", "r400k", "r505", "r505g", "r301", "x500", "wait", "waitB", "pclose"}
+AllReactions == {"accK", "accC", "accH", "accKg", "accCg", "r400i", "r400", "r400g", "r400k", "r505", "r505g", "r301", "x500", "wait", "waitB", "pclose"}
 
 Next == \E c \in Conns :
           \/ \E lg \in BOOLEAN : Connect(c, lg)
